@@ -65,6 +65,25 @@ def run(ck: Check, prog: Program) -> None:
     if not cl or not all(n.id in cfg.reachable(pn) for n, _ in cl):
         problems.append(('ROTATE', 'emptied keys are not cleaned up after a once-patch is consumed', pn.line,
                          'after the last once-patch is used the (endpoint, method) key must be removed so that the next call misses'))
+    # the cleanup itself: the endpoint entry is dropped only when the ENDPOINT has no patches left
+    cu = ci.methods.get('_cleanup_matches')
+    if cu is None:
+        raise AnalysisError('PjRpcMocker._cleanup_matches not found')
+    ck.functions.add(cu.qualname)
+    ccfg = CFG(cu, prog)
+    ep = cu.params[1].arg
+    for n in ccfg.stmt_nodes():
+        for c in calls_in(n):
+            if isinstance(c.func, ast.Attribute) and c.func.attr == 'pop' and dotted(c.func.value) == 'self._matches' and c.args and dotted(c.args[0]) == ep:
+                gs = guard_edges(ccfg, n)
+                ok_g = any(classify_cond(prog, cu, g.src.ast).kind == 'truthy' and norm(g.src.ast) in (f'self._matches[{ep}]',) and
+                           (g.label == 'F') != classify_cond(prog, cu, g.src.ast).negated for g in gs) or \
+                    any(isinstance(g.src.ast, ast.Subscript) and norm(g.src.ast) == f'self._matches[{ep}]' and g.label == 'F' for g in gs)
+                if not ok_g:
+                    problems.append(('ROTATE', 'endpoint dropped although it still has patches for other methods', n.line,
+                                     f'`{norm(c)}` removes the whole endpoint under {[norm(g.src.ast) + ":" + g.label for g in gs]}: it must be guarded '
+                                     f'by the emptiness of self._matches[{ep}] (all methods of the endpoint), otherwise consuming the last `once` patch '
+                                     f'of one method discards the patches of the endpoint\'s other methods'))
     # ---- RECORD-BEFORE-REPLY -----------------------------------------------------------------------
     stub_vars: Set[str] = set()
     for n in cfg.stmt_nodes():
